@@ -731,7 +731,6 @@ func runPredecodeStream(c *Ctx, n int) {
 	}
 }
 
-
 // crInto puts a U+000D into a root attribute value of the message the IdP is about to build (and sign): InResponseTo, or the ID.
 func crInto(rs *ResponseSpec, id bool) {
 	if id {
